@@ -134,6 +134,15 @@ theorem C02_partial (F : BodyFn) (P : Project) (cfg : Cfg) (w : World) (picks : 
     rw [hr] at hup
     exact final_scratch hwf (graphOK_of_createDag hwf hdag) hdry hso hloop rfl hc t hup t ht (UpTo.refl _)
 
+/-- **C02_inputs_untouched.** A build changes no file that no task produces (inputs, module
+files): the contents `Scratch` reads after the build are the ones the user left before it. -/
+theorem C02_inputs_untouched (F : BodyFn) (P : Project) (cfg : Cfg) (w : World) (picks : List Nat)
+    (r : Result) (h : build F P cfg w picks = .ok r) (q : Nat) (hq : ∀ t ∈ P.tasks, q ∉ t.prods) :
+    lookup r.w.fs q = lookup w.fs q := by
+  rcases build_cases h with ⟨hw, _, _, _⟩ | ⟨g, marks, so, so', s, _, _, hloop, hw, _, _, _, _⟩
+  · rw [hw]
+  · rw [hw]; exact buildLoop_fs_frame picks hloop q hq
+
 /-- **C02_success** (the headline form). If the build reports *every* task as SUCCESS or
 SKIP_UNCHANGED (exit code 0, nothing skipped, nothing persisted), every declared product of every
 task holds its from-scratch content. -/
